@@ -2,6 +2,8 @@
     Case lines (TAB separated):
       W <reset> <incon...>                 model write          -> OK <hex bytes> | RAISE e
       R <nv|-> <check> <hex text>          model read           -> OK <incon...>  | RAISE e
+      T <nv|-> <check> <escaped text>      model read of a text sent with TAB -> \001, newline -> \002 (whole files)
+      V <reset> <incon...>                 model write, printed with the same escapes instead of hex
       C <nv|-> <check> <reset> <incon...>  hypotheses + theorem instances on this object
       N <hex text>                         strtod model on float() text
     incon... = sim TAB timing TAB block TAB block ...
@@ -81,6 +83,25 @@ Fixpoint split_lines_aux (cur : str) (acc : list str) (s : str) : list str :=
   end.
 Definition split_lines (s : str) : list str := split_lines_aux [] [] s.
 
+(** linear-time, constant-stack versions of the wire helpers, for whole files on one case line
+    (stdlib [rev], used by [split_c], is quadratic once extracted) *)
+Fixpoint fields_aux (cur : str) (acc : list str) (s : str) : list str :=
+  match s with
+  | [] => rev' (rev' cur :: acc)
+  | c :: r => if ceqb c tab then fields_aux [] (rev' cur :: acc) r else fields_aux (c :: cur) acc r
+  end.
+Definition fields_tr (s : str) : list str := fields_aux [] [] s.
+Fixpoint rev_map_acc {A B} (f : A -> B) (acc : list B) (l : list A) : list B :=
+  match l with [] => acc | a :: r => rev_map_acc f (f a :: acc) r end.
+Definition map_tr {A B} (f : A -> B) (l : list A) : list B := rev' (rev_map_acc f [] l).
+Fixpoint rev_concat_acc {A} (acc : list A) (l : list (list A)) : list A :=
+  match l with [] => acc | a :: r => rev_concat_acc (rev_append a acc) r end.
+Definition concat_tr {A} (l : list (list A)) : list A := rev' (rev_concat_acc [] l).
+Definition c01 : ascii := "001".
+Definition c02 : ascii := "002".
+Definition unesc (s : str) : str := map_tr (fun c => if ceqb c c01 then tab else if ceqb c c02 then newline else c) s.
+Definition esc (s : str) : str := map_tr (fun c => if ceqb c tab then c01 else if ceqb c newline then c02 else c) s.
+
 Definition dec_nv (s : str) : option nat := if str_eqb s (s2l "-") then None else Some (nat_of_str s).
 Definition is1 (s : str) : bool := str_eqb s (s2l "1").
 Definition show_r {A} (f : A -> str) (r : res A) : str :=
@@ -91,9 +112,17 @@ Definition res_lines_eqb (a b : res (list str)) : bool :=
   match a, b with Ok x, Ok y => str_eqb (concat x) (concat y) && (length x =? length y)%nat | _, _ => false end.
 
 Definition run_case (line : str) : str :=
-  match fields line with
+  match fields_tr line with
   | k :: args =>
-      if str_eqb k (s2l "W") then
+      if str_eqb k (s2l "V") then
+        match args with
+        | r :: obj => show_r (fun ls => esc (concat_tr ls)) (write (is1 r) (dec_incon obj))
+        | _ => s2l "BADCASE" end
+      else if str_eqb k (s2l "T") then
+        match args with
+        | [nv; ck; h] => show_r show_incon (read (dec_nv nv) (is1 ck) (split_lines (unesc h)))
+        | _ => s2l "BADCASE" end
+      else if str_eqb k (s2l "W") then
         match args with
         | r :: obj => show_r (fun ls => hex (concat ls)) (write (is1 r) (dec_incon obj))
         | _ => s2l "BADCASE" end
